@@ -436,6 +436,37 @@ def load_corpus():
     return cases
 
 
+LIFECYCLE_METHODS = {"Close"}   # called by reset() under the lock and at shutdown; not a concurrent entry point
+
+
+def lock_scan(src):
+    """translator-lite lock summary: every exported method of OutputStream touches the LevelDB
+    handle, the batch, lastseen, the cache or an *Unlocked helper only inside a messagesMu section.
+    (The model makes each of those sections one atomic step; an access outside a section is a step
+    the model does not have.)  Returns the list of offending 'Method: line'."""
+    bad = []
+    for m in re.finditer(r"^func \((\w+) \*OutputStream\) ([A-Z]\w*)\(.*?^}\n", src, re.S | re.M):
+        recv, name, body = m.group(1), m.group(2), m.group(0)
+        if name in LIFECYCLE_METHODS:
+            continue
+        crit = re.compile(r"\b%s\.(db|batch|lastseen|messagesCache)\b|\b%s\.\w*Unlocked\(" % (recv, recv))
+        lines = [l for l in body.split("\n")]
+        held = False
+        for i, l in enumerate(lines):
+            code = l.split("//")[0]
+            if re.search(r"\b%s\.messagesMu\.R?Lock\(\)" % recv, code):
+                held = True
+                continue
+            if re.search(r"\b%s\.messagesMu\.R?Unlock\(\)" % recv, code) and "defer" not in code:
+                nxt = next((x.strip() for x in lines[i + 1:] if x.strip() and not x.strip().startswith("//")), "")
+                if not nxt.startswith("return"):
+                    held = False          # an unlock directly followed by return ends only that branch
+                continue
+            if crit.search(code) and not held:
+                bad.append("%s: %s" % (name, code.strip()))
+    return bad
+
+
 def source_facts():
     """translator-lite: the shape of GetNext the model's step granularity depends on"""
     src = open(os.path.join(vlib.REPO, "internal/outputstream/outputstream.go")).read()
@@ -448,6 +479,8 @@ def source_facts():
         "add_broadcasts": bool(re.search(r"func \(os \*OutputStream\) Add\(.*?newMessage\.Broadcast\(\).*?\n}\n", src, re.S)),
         "interrupt_broadcasts": bool(re.search(r"func \(os \*OutputStream\) InterruptGetNext\(\) \{[^}]*newMessage\.Broadcast\(\)", src, re.S)),
         "delete_does_not_broadcast": not re.search(r"func \(os \*OutputStream\) Delete\((?:(?!\nfunc ).)*Broadcast", src, re.S),
+        "exported_methods_hold_messagesMu": not lock_scan(src),
+        "unlocked_accesses": lock_scan(src),
         "wait_loop_repeats_lookup": bool(re.search(r"for \{\s*(?://[^\n]*\n\s*)*next, ok := os\.nextUnlocked\(", body)),
     }
     return facts
@@ -564,6 +597,36 @@ def sched_programs(rng, n_random, big):
     return progs
 
 
+def run_stress(ck, rounds=None):
+    """Get(newest) racing Add(next) on the real sync primitives; returns (info, failure or None)"""
+    quick = ck.tier == "quick"
+    rounds = rounds or (6000 if quick else 60000)
+    budget = 8000 if quick else 60000
+    wd = vlib.workdir()
+    outp = os.path.join(wd, "stress.out")
+    if os.path.exists(outp):
+        os.remove(outp)
+    rc, out = vlib.go_test(PKG, overlay(), "^TestVerifOutStress$",
+                           {"VERIF_OUT": outp, "VERIF_ROUNDS": str(rounds), "VERIF_BUDGET_MS": str(budget)}, timeout=600)
+    if rc != 0 or not os.path.exists(outp):
+        return {"rounds": 0}, ("tie-broken:go-driver", {"what": "the stress driver did not build/run", "output": out[-3000:],
+                                                        "obligation": "correspondence outdrv (stress)"}, False)
+    line = open(outp).read().strip()
+    m = re.match(r"stress rounds=(\d+) result=(\w+)(.*)", line)
+    info = {"rounds": int(m.group(1)) if m else 0, "result": m.group(2) if m else "unparsable", "gomaxprocs_at_least": 4}
+    if m and m.group(2) == "ok":
+        return info, None
+    detail = (m.group(3).strip() if m else line)
+    what = re.search(r"what=(\S+)", detail)
+    sig = {"getnext-misses-successor": "getnext-blocked-although-successor-exists",
+           "racing-get-wrong": "get-not-what-was-added",
+           "get-after-race-wrong": "get-not-what-was-added"}.get(what.group(1) if what else "", "stress-failed")
+    return info, (sig, {"what": "Get(newest) racing Add(next): afterwards " + detail[:600],
+                        "cases": [{"kind": "stress", "ops": [], "rounds": rounds, "valid": True,
+                                   "note": "each round: Get(id) || Add(id+1), then GetNext(id) with a cancelled context and Get(id) are checked"}],
+                        "impl_output": line[:800], "how_to_replay": "bin/check C08 --replay <this file>  (probabilistic: re-runs the stress rounds)"}, True)
+
+
 def run_go_mixed(cases, lines, tag="out"):
     """out/outc cases on the real sync primitives, outs cases under the shim; results in case order"""
     idx_s = [i for i, c in enumerate(cases) if c["kind"] == "outs"]
@@ -670,11 +733,14 @@ def run(ck, replay):
     facts = source_facts()
     ck.notes["source_facts"] = facts
     for k in ("getnext_found", "getnext_rlock_then_lock", "getnext_waits_on_cond", "add_broadcasts",
-              "interrupt_broadcasts", "delete_does_not_broadcast"):
+              "interrupt_broadcasts", "delete_does_not_broadcast", "exported_methods_hold_messagesMu"):
         ck.add_obligation(facts.get(k, False), "outputstream.go shape: " + k)
 
+    stress_cases = []
     if replay:
-        cases = [denorm_case(c) for c in json.load(open(replay)).get("cases", [])]
+        rc_all = json.load(open(replay)).get("cases", [])
+        stress_cases = [c for c in rc_all if c.get("kind") == "stress"]
+        cases = [denorm_case(c) for c in rc_all if c.get("kind") != "stress"]
         ncorpus = 0
     else:
         corpus = load_corpus()
@@ -691,6 +757,17 @@ def run(ck, replay):
         if c.get("valid", True) and not disciplined(c):
             raise RuntimeError("generator produced a case outside the discipline but marked valid: " + case_line(c))
     lines = [case_line(c) for c in cases]
+    stress_info, stress_fail = {}, None
+    if not replay or stress_cases:
+        stress_info, stress_fail = run_stress(ck, stress_cases[0].get("rounds") if stress_cases else None)
+    ck.notes["get_add_race_stress"] = stress_info
+    if replay and not cases:
+        ck.cov["evaluations"] = stress_info.get("rounds", 0)
+        if stress_fail:
+            ck.violation(stress_fail[0], stress_fail[1], concrete=stress_fail[2])
+        if not ok:
+            ck.violation("proof-broken", {"what": "proof obligations not discharged", "errors": ck.proof_errors}, concrete=False)
+        return
     glines, goout = run_go_mixed(cases, lines)
     if glines is None:
         ck.violation("tie-broken:go-driver", {"what": "Go correspondence driver did not build/run against the current tree",
@@ -710,7 +787,7 @@ def run(ck, replay):
         sched_info, sched_fail = run_sched(ck)
     ck.notes["schedule_enumeration"] = sched_info
 
-    ck.cov["evaluations"] = len(cases) + sched_info.get("schedules", 0)
+    ck.cov["evaluations"] = len(cases) + sched_info.get("schedules", 0) + stress_info.get("rounds", 0)
     nontriv, dist = set(), {}
     mism, monfail = [], []
     for i, c in enumerate(cases):
@@ -739,7 +816,8 @@ def run(ck, replay):
                       "recipient sets)/Delete(oldest, any, tail, non-existing)/Get/GetNext(cancelled ctx; existing, tail, deleted, gap, newer than everything)/LastSeen; "
                       "malformed programs (re-added / non-increasing ids, empty batch, deleting the last batch) compared with the model only; scripted concurrent "
                       "scenarios with 1-3 real GetNext goroutines (driver waits until each is parked in Cond.Wait) around Add/Delete/cancel/Interrupt; "
-                      "explicit schedules of the lock-protected sections under the schedsync shim; non-trivial = some Get/GetNext returned a batch; distinct by case text")
+                      "explicit schedules of the lock-protected sections under the schedsync shim; thousands of rounds of Get(newest) racing Add(next) on the real "
+                      "primitives (GOMAXPROCS>=4) each followed by GetNext/Get checks; non-trivial = some Get/GetNext returned a batch; distinct by case text")
     ck.cov["input_distribution"] = {"cases_by_kind": dist, "operations": opdist, "impl_outcomes": outcomes, "corpus_cases": ncorpus}
     ck.cov["samples"] = [{"case": lines[i], "impl": glines[i], "model": mlines[i]} for i in
                          ([0, 1] if ncorpus else []) + [ncorpus, len(cases) - 1] if i < len(lines)][:4]
@@ -764,6 +842,11 @@ def run(ck, replay):
                            "how_to_replay": "bin/check C08 --replay <this file>"}, concrete=True)
         if len(reported) >= 4:
             break
+    if stress_fail and stress_fail[0] not in reported:
+        reported.add(stress_fail[0])
+        ck.violation(stress_fail[0], stress_fail[1], concrete=stress_fail[2])
+        if stress_fail[2]:
+            monfail.append((-1, (stress_fail[0], "")))
     sched_concrete = [f for f in sched_fail if f[2].get("concrete")]
     for sig, text, rp in sched_fail:
         if sig not in reported and (rp.get("concrete") or not (monfail or sched_concrete)):
